@@ -1,16 +1,21 @@
 # "wide" executor: the generic oracles of C01 / C04 / C05 over the pipe types of lib/upipe-modules that pipes_core.c does not cover
-# (harness/pipes_wide.c, table-driven; the RTP family is compiled against the stand-in headers shim/bitstream/ietf/*.h, the ID3v2 pair against shim/bitstream/id3/id3v2.h).
+# (harness/pipes_wide.c, table-driven; the RTP family is compiled against the stand-in headers shim/bitstream/ietf/*.h, the ID3v2 pipes against shim/bitstream/id3/*.h, vanc_decoder and s337_encaps against shim/bitstream/smpte/*.h and atsc/a52.h).
 PIPEFIX = ["engine/umem_count.c", "engine/pipefix.c", "engine/fake_upump.c", "engine/heapcount.c"]
 WIDE = lib("upipe-modules", only=["upipe_noclock.c", "upipe_nodemux.c", "upipe_multicat_probe.c", "upipe_dejitter.c", "upipe_dump.c", "upipe_rtp_h264.c",
     "upipe_rtp_mpeg4.c", "upipe_burst.c", "upipe_play.c", "upipe_block_to_sound.c", "upipe_ntsc_prepend.c", "upipe_crop.c", "upipe_separate_fields.c",
     "upipe_row_split.c", "upipe_row_join.c", "upipe_video_blank.c", "upipe_audio_blank.c", "upipe_videocont.c", "upipe_audiocont.c",
     "upipe_subpic_schedule.c", "upipe_blit.c", "upipe_sync.c", "upipe_audio_split.c", "upipe_audio_merge.c", "upipe_void_source.c",
     "upipe_blank_source.c", "upipe_sine_wave_source.c", "upipe_grid.c",
-    "upipe_rtp_prepend.c", "upipe_rtcp.c", "upipe_rtp_decaps.c", "upipe_rtp_reorder.c", "upipe_id3v2_decaps.c", "upipe_id3v2_encaps.c"])
+    "upipe_rtp_prepend.c", "upipe_rtcp.c", "upipe_rtp_decaps.c", "upipe_rtp_reorder.c", "upipe_id3v2_decaps.c", "upipe_id3v2_encaps.c",
+    "upipe_id3v2.c", "upipe_probe_uref.c", "upipe_idem.c", "upipe_rtp_pcm_pack.c", "upipe_rtp_pcm_unpack.c", "upipe_stream_switcher.c", "upipe_auto_inner.c",
+    "upipe_rtp_demux.c", "upipe_vanc_decoder.c", "upipe_dtsdi.c", "upipe_s337_encaps.c", "upipe_graph.c",
+    "upipe_auto_source.c", "upipe_sequential_source.c", "upipe_segment_source.c"])
 TYPES = ("noclock, nodemux, multicat_probe, dejitter(+subs), dump, rtp_h264, rtp_mpeg4, burst, play(+subs), block_to_sound, ntsc_prepend, crop, "
          "separate_fields, row_split, row_join, video_blank, audio_blank, videocont(+subs), audiocont(+subs), subpic_schedule(+subs), blit(+subs), "
-         "sync(+subs), audio_split(+subs), audio_merge(+subs), void_source, blank_source, sine_wave_source, rtp_prepend, rtcp, rtp_decaps, rtp_reorder(+subs), id3v2_decaps, id3v2_encaps(+subs)")
-GEN = ("wide: tape-decoded legal history (<=40 ops) over [head ->] PIPE (+ up to 3 sub-pipes) [-> tail], PIPE drawn from a table of 33 further types (" + TYPES + "), "
+         "sync(+subs), audio_split(+subs), audio_merge(+subs), void_source, blank_source, sine_wave_source, rtp_prepend, rtcp, rtp_decaps, rtp_reorder(+subs), id3v2_decaps, id3v2_encaps(+subs); second bank (a quarter of the cases): grid(+input and output subs), "
+         "rtp_pcm_pack, rtp_pcm_unpack, stream_switcher(+subs), auto_inner, rtp_demux(+subs), id3v2, vanc_decoder, dtsdi, s337_encaps, graph(+subs), and over a stand-in source pipe of the harness "
+         "auto_source, sequential_source(+peers on the same manager), segment_source")
+GEN = ("wide: tape-decoded legal history (<=40 ops) over [head ->] PIPE (+ up to 3 sub-pipes) [-> tail], PIPE drawn from a table of 47 further types (" + TYPES + "), "
        "head/tail drawn from the four pass-through types; every output ends in a tap (checks at the moment a definition or buffer passes) in front of a recording sink; "
        "ops: input of sequence-numbered block / picture / sound / void buffers of the type's kind (sizes, segments, dates present or absent, attributes, RTP / Annex-B / row-chunk structure where the type needs it), "
        "set_flow_def (three valid variants of the type's kind, one of another kind), set_output (tap A / tap B / NULL / next pipe), sub-pipe alloc (valid and invalid arguments) and release, "
